@@ -93,6 +93,7 @@ theorem ids_stepTau {s s' : Sys} {t : Tau} (hs : stepTau s t = some s') : ids s'
                             exact ids_guard hs (ids_setPc _ _ _)
   case syncDone => split at hs
                    · cases hs; exact ids_setPc _ _ _
+                   · cases hs; exact ids_setPc _ _ _
                    · simp at hs
   case redispatch id => split at hs; · simp at hs
                         simp only at hs
